@@ -174,3 +174,44 @@ Definition dobsout_eqb (a b : dobsout) : bool :=
   && list_eqb triple_eqb (snd (snd a)) (snd (snd b)).
 
 Definition debond_eqb (a b : list dobsout) : bool := list_eqb dobsout_eqb a b.
+
+(* ---------- block-structured histories (the ABCI-multiplexer stream) ----------
+   The escrow account is a validator entity whose active pool already exists
+   at genesis; every block is a list of operations (rewards, commission
+   deposits and slashes are taken from the block's events in order, the epoch
+   transition sits where onEpochChange runs in EndBlock); observed after each
+   block: the codes of its operations and [dobs]. *)
+Definition dinit2 (epoch b s : N) : dst := mkD (mkPool b s) (mkPool 0 0) [] [] epoch [] [] false.
+
+Fixpoint drun_codes (st : dst) (ops : list dop) : dst * list code :=
+  match ops with
+  | [] => (st, [])
+  | o :: r =>
+      let '(st1, c) := dstep st o in
+      let '(st2, cs) := drun_codes st1 r in
+      (st2, c :: cs)
+  end.
+
+Definition bobs := (list code * (list N * list (N * N * N)))%type.
+
+Fixpoint drun_blocks (st : dst) (blocks : list (list dop)) : list bobs :=
+  match blocks with
+  | [] => []
+  | b :: r => let '(st1, cs) := drun_codes st b in (cs, dobs st1) :: drun_blocks st1 r
+  end.
+
+Definition run_debond_blocks (c : (N * N * N) * list (list dop)) : list bobs :=
+  let '((epoch, b, s), blocks) := c in drun_blocks (dinit2 epoch b s) blocks.
+
+Fixpoint codes_eqb (a b : list code) : bool :=
+  match a, b with
+  | [], [] => true
+  | x :: a', y :: b' => code_eqb x y && codes_eqb a' b'
+  | _, _ => false
+  end.
+
+Definition bobs_eqb (a b : bobs) : bool :=
+  codes_eqb (fst a) (fst b) && list_eqb N.eqb (fst (snd a)) (fst (snd b))
+  && list_eqb triple_eqb (snd (snd a)) (snd (snd b)).
+
+Definition blocks_eqb (a b : list bobs) : bool := list_eqb bobs_eqb a b.
